@@ -284,6 +284,18 @@ def run(ctx):
     ctx.ob('C18-GEN.other-exceptions-roll-back', wi, inter[0].ast, ok,
            '' if ok else 'an exception of the generator body can leave wrapped_interact without rollback_and_reraise')
 
+    # a generator session may only be suspended with nothing pending: the guard refuses whenever a cache is modified OR inside a transaction -- each of the
+    # two alone must be enough, whatever else the test mentions (another session on the thread would otherwise roll the suspended transaction back)
+    from ..typestate import eval_test
+    guards = [t for t in g.nodes if t.kind == 'test' and any(isinstance(x, ast.Attribute) and x.attr in ('modified', 'in_transaction') for x in ast.walk(t.ast))
+              and any(th.id in g.reach([y for y, lab in g.succ[t.id] if lab == 'T']) for th in g.nodes if th.kind == 'stmt' and th.ast is not None and g.is_noreturn_stmt(th.ast))]
+    ctx.need(guards, 'C18-GEN: the suspension guard of the generator wrapper was not found')
+    for t in guards:
+        for flag in ('modified', 'in_transaction'):
+            v = eval_test(t.ast, lambda text, node, flag=flag: True if text.endswith('.' + flag) else None)
+            ctx.ob('C18-GEN.suspension-refused-while-anything-is-pending', wi, t.stmt, v is True,
+                   '' if v is True else 'with cache.%s set the guard `%s` does not necessarily refuse the suspension: the generator keeps an open transaction across a yield, another '
+                   'db_session on the thread rolls it back, and the generator later "commits" only the second half of its work' % (flag, norm(t.ast)[:80]), node=t.stmt).key += '::' + flag
     # ------------------------------------------------------------- MULTI (shared with C17): nothing is committed when the session's flush fails
     from . import C17
     C17.global_commit_rules(ctx, P='C18-MULTI')
@@ -310,6 +322,7 @@ def run(ctx):
 
 
 MUTANTS = [
+    dict(id='C18-susp', file='pony/orm/core.py', fn='DBSessionContextManager._wrap_coroutine_or_generator_function', old="                        if cache.modified or cache.in_transaction: throw(TransactionError,", new="                        if cache.modified and cache.in_transaction: throw(TransactionError,", expect='C18-GEN.suspension'),
     dict(id='C18-m1', file='pony/orm/core.py', fn='DBSessionContextManager._commit_or_rollback',
          old='if exc_type is None: can_commit = True', new='if exc is None: can_commit = True', expect='C18-GATE.disallowed-exception-never-commits'),
     dict(id='C18-m2', file='pony/orm/core.py', fn='DBSessionContextManager._commit_or_rollback',
